@@ -239,7 +239,19 @@ def run_harness(ctx, binpath, module, behaviours, name, shards=None, timeout=900
             if rc == 124:
                 raise Infra("harness shard %d timed out after %ds" % (i, timeout))
             if not os.path.exists(sp):
-                raise Infra("harness shard %d died (rc=%d): %s" % (i, rc, open(os.path.join(d, "out.%d.log" % i)).read()[-2000:]))
+                log = open(os.path.join(d, "out.%d.log" % i), errors="replace").read()
+                m = re.search(r"^fatal error: (.*)$", log, re.M)
+                if m:
+                    # the Go runtime ended the process (concurrent map writes, all goroutines asleep, ...): no recover() can
+                    # catch that.  It counts as the teamserver's own end when the goroutine that ran into it was in its code
+                    blk = log[m.start():].split("\n\n")[1] if "\n\n" in log[m.start():] else ""
+                    frames = re.findall(r"^([\w./*()\-]+)\(", blk, re.M)
+                    first = next((f for f in frames if not f.startswith(("runtime.", "sync.", "internal/"))), "")
+                    if first.startswith("Havoc/"):
+                        merged["incidents"].append({"kind": "fatal", "site": "%s in %s" % (m.group(1), first), "detail": log[m.start():m.start() + 3000], "shard": i, "behaviour": -1, "step": -1})
+                        shutil.rmtree(os.path.join(d, "w%d" % i), ignore_errors=True)
+                        continue
+                raise Infra("harness shard %d died (rc=%d): %s" % (i, rc, log[-2000:]))
             s = json.load(open(sp))
             for inc in s.get("incidents") or []:
                 if inc["kind"] == "harness-error":
